@@ -256,12 +256,16 @@ type EnvOpts struct {
 	Down map[int]bool
 	// TwoMgrs creates a second manager talking to the same servers.
 	TwoMgrs bool
+	// DialTimeout overrides the dial timeout (default 2 s).
+	DialTimeout time.Duration
+	// TokBase is the first call token minus one.
+	TokBase uint64
 }
 
 // NewEnv starts the puppet servers and creates the manager and one
 // configuration per prefix size.
 func NewEnv(tr *vtrace.Tracer, o EnvOpts) (*Env, error) {
-	e := &Env{Tr: tr, QS: NewQSpec(tr), Cfgs: map[int]*puppet.Configuration{}, tok: 0}
+	e := &Env{Tr: tr, QS: NewQSpec(tr), Cfgs: map[int]*puppet.Configuration{}, tok: o.TokBase}
 	idmap := map[string]uint32{}
 	for i := 1; i <= o.Nodes; i++ {
 		s := puppetsrv.New(uint32(i), tr)
@@ -276,8 +280,12 @@ func NewEnv(tr *vtrace.Tracer, o EnvOpts) (*Env, error) {
 		e.Servers = append(e.Servers, s)
 		idmap[s.Addr] = uint32(i)
 	}
+	dt := 2 * time.Second
+	if o.DialTimeout > 0 {
+		dt = o.DialTimeout
+	}
 	opts := append([]gorums.ManagerOption{
-		gorums.WithDialTimeout(2 * time.Second),
+		gorums.WithDialTimeout(dt),
 		gorums.WithGrpcDialOptions(grpc.WithTransportCredentials(insecure.NewCredentials()), grpc.WithBlock()),
 	}, o.MgrOpts...)
 	mk := func() (*puppet.Manager, map[int]*puppet.Configuration, error) {
